@@ -198,14 +198,10 @@ namespace plan
         for (auto &v : m.evars)
           if (v.name == b->p[0])
           {
-            std::vector<std::string> vals = m.enums[v.en].vals;
-            if (m.enums[v.en].includes >= 0)
-              for (auto &x : m.enums[m.enums[v.en].includes].vals)
-                vals.push_back(x);
             z3::expr var = ctx.int_const(v.name.c_str());
-            for (size_t i = 0; i < vals.size(); ++i)
-              if (vals[i] == b->sval)
-                return b->neg ? var != ctx.int_val(static_cast<int>(i)) : var == ctx.int_val(static_cast<int>(i));
+            for (auto &x : m.enum_values(v.en))
+              if (x.second == b->sval)
+                return b->neg ? var != ctx.int_val(x.first) : var == ctx.int_val(x.first);
           }
         supported = false;
         return ctx.bool_val(true);
@@ -248,11 +244,8 @@ namespace plan
         { // an enum variable ranges over the values of its enum and of the included one; ids are global (1000*enum + index)
           z3::expr_vector d(ctx);
           z3::expr var = ctx.int_const(v.name.c_str());
-          for (size_t i = 0; i < m.enums[v.en].vals.size(); ++i)
-            d.push_back(var == ctx.int_val(1000 * v.en + static_cast<int>(i)));
-          if (m.enums[v.en].includes >= 0)
-            for (size_t i = 0; i < m.enums[m.enums[v.en].includes].vals.size(); ++i)
-              d.push_back(var == ctx.int_val(1000 * m.enums[v.en].includes + static_cast<int>(i)));
+          for (auto &x : m.enum_values(v.en))
+            d.push_back(var == ctx.int_val(x.first));
           slv.add(z3::mk_or(d));
         }
         // what the planner itself adds: origin >= 0, origin <= horizon
